@@ -109,6 +109,25 @@ static void run_op(std::string const& line) {
       if (i < 1 || i > NINST || !inst[i].kind) skip = 1; else inst[i].clear();
     } else if (op == "crelease") {
       if (A(0) >= 1 && A(0) <= NSLOT && exps[A(0)]) exps[A(0)].reset(); else skip = 1;
+    } else if (op == "cargs") {      // cargs k a1 .. a15: the positional names _1.._15 inside the coroutine clause evaluated during the call
+      int k = A(0);
+      ii = NINST;
+      if (inst[ii].kind) { skip = 1; ii = 0; }
+      else {
+        std::unique_ptr<trompeloeil::expectation> e;
+        if (k == 1) e = NAMED_REQUIRE_CALL(*mk, ca(trompeloeil::_, trompeloeil::_, trompeloeil::_, trompeloeil::_, trompeloeil::_, trompeloeil::_, trompeloeil::_, trompeloeil::_, trompeloeil::_, trompeloeil::_, trompeloeil::_, trompeloeil::_, trompeloeil::_, trompeloeil::_, trompeloeil::_)).CO_RETURN(_1 * 1 + _2 * 2 + _3 * 3 + _4 * 4 + _5 * 5 + _6 * 6 + _7 * 7 + _8 * 8 + _9 * 9 + _10 * 10 + _11 * 11 + _12 * 12 + _13 * 13 + _14 * 14 + _15 * 15);
+        else if (k == 2) e = NAMED_REQUIRE_CALL(*mk, ca(trompeloeil::_, trompeloeil::_, trompeloeil::_, trompeloeil::_, trompeloeil::_, trompeloeil::_, trompeloeil::_, trompeloeil::_, trompeloeil::_, trompeloeil::_, trompeloeil::_, trompeloeil::_, trompeloeil::_, trompeloeil::_, trompeloeil::_)).CO_THROW(std::runtime_error(std::to_string(_1 * 1 + _2 * 2 + _3 * 3 + _4 * 4 + _5 * 5 + _6 * 6 + _7 * 7 + _8 * 8 + _9 * 9 + _10 * 10 + _11 * 11 + _12 * 12 + _13 * 13 + _14 * 14 + _15 * 15)));
+        else if (k == 3) e = NAMED_REQUIRE_CALL(*mk, ca(trompeloeil::_, trompeloeil::_, trompeloeil::_, trompeloeil::_, trompeloeil::_, trompeloeil::_, trompeloeil::_, trompeloeil::_, trompeloeil::_, trompeloeil::_, trompeloeil::_, trompeloeil::_, trompeloeil::_, trompeloeil::_, trompeloeil::_)).CO_YIELD(_1 * 1 + _2 * 2 + _3 * 3 + _4 * 4 + _5 * 5 + _6 * 6 + _7 * 7 + _8 * 8 + _9 * 9 + _10 * 10 + _11 * 11 + _12 * 12 + _13 * 13 + _14 * 14 + _15 * 15).CO_RETURN(0);
+        else if (k == 4) e = NAMED_REQUIRE_CALL(*mk, ca(trompeloeil::_, trompeloeil::_, trompeloeil::_, trompeloeil::_, trompeloeil::_, trompeloeil::_, trompeloeil::_, trompeloeil::_, trompeloeil::_, trompeloeil::_, trompeloeil::_, trompeloeil::_, trompeloeil::_, trompeloeil::_, trompeloeil::_)).LR_CO_RETURN(_1 * 1 + _2 * 2 + _3 * 3 + _4 * 4 + _5 * 5 + _6 * 6 + _7 * 7 + _8 * 8 + _9 * 9 + _10 * 10 + _11 * 11 + _12 * 12 + _13 * 13 + _14 * 14 + _15 * 15);
+        else skip = 1;
+        if (!skip) {
+          inst[ii].e.emplace(mk->ca(A(1), A(2), A(3), A(4), A(5), A(6), A(7), A(8), A(9), A(10), A(11), A(12), A(13), A(14), A(15))); inst[ii].kind = 1;
+          emit(op.c_str(), a, acc, thr, skip, ii);
+          inst[ii].clear();            // the coroutine frame goes before the expectation (proviso of C20)
+          e.reset();
+          return;
+        }
+      }
     } else if (op == "d12") {
       // witness of known finding D12: a clause of a mocked coroutine with arity >= 1 evaluated after the mock call returned
       auto e = NAMED_REQUIRE_CALL(*mk, cl1(trompeloeil::_)).CO_RETURN(_1 + 1);
